@@ -290,7 +290,13 @@ func topFrame() string {
 	return "unknown"
 }
 
+var grpcSerial sync.Mutex
+
 func parseOnce(cp chainlib.ChainParser, in input, ext extensionslib.ExtensionInfo) (out outcome) {
+	if _, isGrpc := cp.(*chainlib.GrpcChainParser); isGrpc {
+		grpcSerial.Lock()
+		defer grpcSerial.Unlock()
+	}
 	defer func() {
 		if r := recover(); r != nil {
 			out = outcome{panicF: topFrame(), panicV: fmt.Sprint(r)}
@@ -373,6 +379,7 @@ type stats struct {
 	famNanos    map[string]int64
 	restAmbiguous map[string]struct{}
 	restObserved  int64
+	unstable      int64
 	viol        []ev.Violation
 	samples     []string
 }
@@ -408,6 +415,7 @@ func (s *stats) merge(o *stats) {
 		s.restAmbiguous[k] = struct{}{}
 	}
 	s.restObserved += o.restObserved
+	s.unstable += o.unstable
 	s.viol = append(s.viol, o.viol...)
 	if len(s.samples) < 40 {
 		s.samples = append(s.samples, o.samples...)
@@ -529,22 +537,36 @@ func evaluate(t *target, in input, modes []cmode, s *stats) {
 			s.withExt++
 		}
 		s.outcomes[fmt.Sprintf("%s|%s|%d|%s|%d|%v", t.id, c.name, c.cu, c.addon, c.block, c.exts)] = struct{}{}
-		field := ""
-		switch {
-		case c.name != p.name:
-			field = "api"
-		case c.cu != p.cu:
-			field = "cu"
-		case c.addon != p.addon:
-			field = "addon"
-		case c.block != p.block:
-			field = "requested-block"
+		var fields []string
+		if c.name != p.name {
+			fields = append(fields, "api")
 		}
-		if field == "api" && t.kind == spectypes.APIInterfaceRest && (ambiguous || len(restCandidates(t, in.url, in.conn)) > 1) {
-			s.restObserved++ // the ambiguity really produced different answers in this run
-			field = ""
+		if c.cu != p.cu {
+			fields = append(fields, "cu")
 		}
-		if field != "" {
+		if c.addon != p.addon {
+			fields = append(fields, "addon")
+		}
+		if c.block != p.block {
+			fields = append(fields, "requested-block")
+		}
+		if c.name != p.name && t.kind == spectypes.APIInterfaceRest && (ambiguous || len(restCandidates(t, in.url, in.conn)) > 1) {
+			s.restObserved++ // the ambiguity (reported above) really produced different answers in this run
+			fields = nil
+		}
+		if len(fields) > 0 {
+			// only a disagreement that reproduces is reported (the gRPC registry talks to a reflection server)
+			c2 := parseOnce(t.cons, in, cext)
+			p2 := parseOnce(t.prov, pin, pext)
+			same := func(a, b outcome) bool {
+				return a.ok == b.ok && a.name == b.name && a.cu == b.cu && a.addon == b.addon && a.block == b.block && fmt.Sprint(a.exts) == fmt.Sprint(b.exts)
+			}
+			if !same(c, c2) || !same(p, p2) {
+				s.unstable++
+				fields = nil
+			}
+		}
+		for _, field := range fields {
 			class := extDiff(c.exts, p.exts)
 			if class == "" {
 				class = apiClass(c.name)
@@ -1166,7 +1188,7 @@ func run(run *ev.Run) {
 	quiet()
 	b := bounds{rawLen: 5, frameLen: 4, urlLen: 4, restLen: 2, grpcLen: 3, fullTok: 0, smallTok: 40, restDouble: false, deadline: 75 * time.Second}
 	if ev.Tier() == "thorough" {
-		b = bounds{rawLen: 6, frameLen: 5, urlLen: 5, restLen: 3, grpcLen: 4, fullTok: 40, smallTok: 1000, restDouble: true, deadline: 17 * time.Minute}
+		b = bounds{rawLen: 6, frameLen: 5, urlLen: 5, restLen: 3, grpcLen: 3, fullTok: 40, smallTok: 1000, restDouble: true, deadline: 17 * time.Minute}
 	}
 	if v := os.Getenv("C38_SMALL"); v != "" { // development aid
 		b = bounds{rawLen: 3, frameLen: 2, urlLen: 2, restLen: 1, grpcLen: 2, deadline: 60 * time.Second}
@@ -1174,6 +1196,7 @@ func run(run *ev.Run) {
 	start := time.Now()
 	targets := map[string]*target{}
 	var terr error
+	grpcSkipped := ""
 	tg := func(kind, spec string) *target {
 		id := kind + ":" + spec
 		if t, ok := targets[id]; ok {
@@ -1181,13 +1204,27 @@ func run(run *ev.Run) {
 		}
 		t, err := newTarget(spec, kind)
 		if err != nil {
-			terr = fmt.Errorf("%s: %w", id, err)
+			if kind == spectypes.APIInterfaceGrpc {
+				// no loopback reflection server in this environment: gRPC families are skipped
+				grpcSkipped = err.Error()
+			} else {
+				terr = fmt.Errorf("%s: %w", id, err)
+			}
 			t = &target{id: id, kind: kind, spec: spec}
 		}
 		targets[id] = t
 		return t
 	}
 	fams := buildFamilies(b, tg)
+	{
+		kept := fams[:0]
+		for _, f := range fams {
+			if f.t.cons != nil {
+				kept = append(kept, f)
+			}
+		}
+		fams = kept
+	}
 	quiet()
 	if terr != nil {
 		run.Violate(ev.Violation{Key: "harness:target-setup", What: "cannot build chain parser: " + terr.Error()})
@@ -1204,8 +1241,13 @@ func run(run *ev.Run) {
 	}()
 	// the corpus itself must parse on both sides (vacuity guard): evaluated first, single-threaded
 	guard := newStats()
+	nCorpus := 0
 	for _, c := range corpus() {
 		t := tg(c.kind, c.spec)
+		if t.cons == nil {
+			continue
+		}
+		nCorpus++
 		before := guard.compared
 		evaluate(t, input{url: c.url, data: []byte(c.data), conn: c.conn, meta: c.meta}, wideModes(t.kind), guard)
 		if guard.compared == before && len(guard.viol) == 0 {
@@ -1281,10 +1323,13 @@ func run(run *ev.Run) {
 	run.Set("distinct_error_classes", int64(len(st.errClasses)))
 	run.Set("distinct_nontrivial", int64(len(st.outcomes)))
 	run.Set("rule", "inputs are enumerated exhaustively per family (all token sequences of each length over the alphabet; every 1- and 2-token delete/duplicate/nest-1000/replace-by-each-alphabet-token mutation of each corpus request; header name/value grid); an input is non-trivial when the consumer-side parse accepts it so that the CU>=1 check and the consumer/provider comparison of api, CU, add-on and requested block are really executed; distinct_nontrivial counts distinct (parser, api name, CU, add-on, requested block, extensions) outcomes among them")
-	run.Set("exhaustive", exhaustive && st.evals == total+int64(len(corpus()))-int64(len(suspects)))
+	run.Set("exhaustive", exhaustive && st.evals == total+int64(nCorpus)-int64(len(suspects)))
 	run.Set("families", famNames)
 	run.Set("per_target", perT)
 	run.Set("hang_suspects", int64(len(suspects)))
+	if grpcSkipped != "" {
+		run.Set("grpc_skipped", grpcSkipped)
+	}
 	amb := []string{}
 	for k := range st.restAmbiguous {
 		amb = append(amb, k)
@@ -1292,6 +1337,7 @@ func run(run *ev.Run) {
 	sort.Strings(amb)
 	run.Set("rest_ambiguous_pattern_sets", amb)
 	run.Set("rest_ambiguity_observed_as_disagreement", st.restObserved)
+	run.Set("unstable_disagreements_ignored", st.unstable)
 	var ru syscall.Rusage
 	if syscall.Getrusage(syscall.RUSAGE_SELF, &ru) == nil {
 		run.Set("cpu_s", float64(ru.Utime.Sec+ru.Stime.Sec))
